@@ -118,6 +118,8 @@ def _worker(module, unit_name, props, prefix, path_id):
     logging.disable(logging.CRITICAL)
     from . import units
     unit = units.load(module, unit_name)
+    if unit.timeout_ms:
+        smt.Z3_TIMEOUT_MS = unit.timeout_ms
     key = (module, unit_name, props)
     ctx = _CTX_CACHE.get(key)
     if ctx is None:
